@@ -23,11 +23,15 @@ func TestC20Rewind(t *testing.T) {
 		o := defaultStreamOpts()
 		o.smallPSI, o.maxPESLen, o.maxUnits = true, 700, 3
 		m := drawStream(t, o)
-		stream := append(ref.NullPacket(0xff).MustEncode(), m.bytes()...)
+		auto := gen.Bool(t, "auto")
+		stream := m.bytes()
+		if auto {
+			// keeps the 193-byte detection window free of spurious sync bytes
+			stream = append(ref.NullPacket(0xff).MustEncode(), stream...)
+		}
 		if len(stream) > 188*60 {
 			t.Skip("stream too long for an exhaustive rewind sweep")
 		}
-		auto := gen.Bool(t, "auto")
 		mode := gen.Uniform(t, 3, "mode") // 0 NextData, 1 NextPacket, 2 mixture
 		mix := rapid.SliceOfN(rapid.Bool(), 32, 32).Draw(t, "mix")
 		var opts []func(*astits.Demuxer)
